@@ -604,8 +604,12 @@ pub fn main(args: Args) {
         ("accepted_by_previous_grammar", 300),
         ("inputs_needing_migration", 60),
         ("already_current_left_unchanged", 150),
-        ("for_type_tokens_expected_to_go", 100),
-        ("tokens_compared", 20_000),
+        ("for_type_tokens_expected_to_go", 400),
+        ("tokens_compared", 40_000),
+        ("migrated_outputs_parsed", 150),
+        ("migrations_with_for_types_removed", 40),
+        ("migrations_with_multibyte_text", 12),
+        ("comments_compared", 1_000),
     ]);
 }
 
